@@ -28,7 +28,7 @@ SPEC = {
         "and the profile file name, readConfigFile steps, setDefault condition/calls, DefaultConfiguration literals, ApplyOverrides key lowering, "
         "slice override op, readConfig call order in src/please.go)",
         "correspondence harness/cmd/c39 vs Driver/C39.lean: core.ReadDefaultConfigFiles over an in-memory fs.FS + ApplyOverrides, 13 representative "
-        "options (string, int, bool, list with/without default, pre-populated list, map key in two cases, plugin keys); exhaustive subsets of the "
+        "options (string, int, bool, list with/without default, pre-populated list, map key in two cases, plugin keys, please.version with and without >=); exhaustive subsets of the "
         "10 sources {5 files}x{file,profile} for a string and a list option, all value/blank sequences up to length 4 over two layers, random scenarios",
         "modelled, not verified: Model/Config.lean transcribes ReadConfigFiles, readConfigFile, normaliseAndMergePluginConfig, setDefault, "
         "ApplyOverrides and the layering-relevant part of gcfg set(); Go maps as functions Nat -> value",
@@ -55,4 +55,7 @@ Dry-runs on scratch copies (VERIF_REPO), all with findings_inbox/C39.jsonl loade
  m7 setDefault appends the default instead of filling an empty slice     -> exit 1, facts + failing input (buildfilename [machine,BUILD,BUILD.plz])
  h1 harmless: loop variables renamed, profile name built in a local variable first, two independent setDefault calls swapped
                                                                          -> exit 0, 29/29, 0 disagreements
+ Fix phase: version-gte-sticky (found by a seed author, confirmed here on 209 generated layerings) repaired in /repo 3e7b8fa (baseline 347/347); the fact
+ versionResetsGTE is required by FactsOK, please.version is option 13 of the table (every ordered pair of the ten sources x {plain, >=}), corpus/C39/fixed-version-gte-sticky.ops.
+ `-o please.version:X` is refused by ApplyOverrides (struct field), so there is no override case for it.
 """
